@@ -66,6 +66,20 @@ def plan(tier, seed):
         j = {'prog': prog, 'vars': vars_, 'label': label, 'spellings': sp, 'must_contain': MUST}
         j.update(kw)
         jobs.append(j)
+    # the C01 grammar (single statement-carrying elements in seeded attribute orders, nestings, switch/case) and
+    # C09's generated METAL pairs, re-spelled
+    from checks import C01, C09
+    c01 = C01.plan(tier, seed)['families'][0]['jobs']
+    step = 8 if quick else 3
+    for k, cj in enumerate(c01[::step]):
+        prog = dict(cj['prog'], static=list(FOREIGN))
+        jobs.append({'prog': prog, 'vars': cj['vars'], 'label': 'c01:%d:%s' % (k, cj['label'][:60]),
+                     'spellings': ['default', 'renamed-root', 'renamed-each', 'data'], 'must_contain': MUST})
+    for k, (label, lib, tree, vars_) in enumerate(C09.generated(12 if quick else 150, seed)):
+        prog = dict(tree, static=list(FOREIGN))
+        vs = [[n, {'len': 'len', 'int': 'int', 'bool': 'bool'}[kd], sl] for n, kd, sl in vars_]
+        jobs.append({'prog': prog, 'vars': vs, 'label': 'c09:' + label, 'spellings': ['default', 'renamed-root'],
+                     'must_contain': MUST})
     by = {j['label']: j for j in jobs}
     fam = dict(name='spelling_independence', module=H, fn='H', jobs=jobs, timeout=300 if quick else 900, batch=2,
                vacuity=2, program_key='prog',
@@ -78,7 +92,7 @@ def plan(tier, seed):
                    'chameleon.parser:ElementParser.visit_start_tag', 'chameleon.parser:ElementParser.visit_empty_tag',
                    'chameleon.tal:prepare_attributes', 'chameleon.zpt.program:convert_data_attributes',
                    'chameleon.zpt.program:validate_attributes', 'chameleon.zpt.program:MacroProgram.visit_element'],
-        bounds=('%d templates (TAL statements, on-error, i18n, METAL, meta:interpolation) each written in 2-4 spellings: '
+        bounds=('%d templates (11 hand-written: TAL statements, on-error, i18n, METAL, meta:interpolation; the rest taken from the C01 grammar and C09\'s generated METAL pairs) each written in 2-4 spellings: '
                 'default prefixes, renamed prefixes declared on the root or on each element, data-<prefix>-<name> '
                 'attributes (option on), namespace-element form; foreign attributes mixed in (data-x, data-x-y, '
                 'data-<declared foreign prefix>-name, a declared foreign namespace, data-tal). All spellings must render '
